@@ -308,6 +308,17 @@ func main() {
 			}
 		}
 	}
+	// data-dependent exits below every context list of nesting 0..1, and below a sample of the deeper ones
+	for nest := 0; nest <= 2; nest++ {
+		for _, ctx := range AllCtx(nest) {
+			for _, x := range ExitKinds {
+				if nest == 2 && !thorough && rng.Intn(6) != 0 {
+					continue
+				}
+				shapes = append(shapes, Shape{append(append([]string{}, ctx...), x), "none", "val"})
+			}
+		}
+	}
 	for i, sh := range shapes {
 		var deep []int
 		twinDeep := 0
@@ -375,6 +386,7 @@ func main() {
 	h.places(mdeep)
 	h.escapes(hdeep)
 	lap("places-escapes")
+	h.defforms(mdeep)
 	h.lazies([]int{150}) // thunks capture the growing accumulators: closure creation is quadratic in their size
 	lap("lazies")
 	if !thorough && len(h.failures) == 0 {
